@@ -4,6 +4,7 @@ import (
 	gocontext "context"
 	"encoding/json"
 	"fmt"
+	"runtime"
 	"sort"
 	"strings"
 	"sync"
@@ -108,6 +109,7 @@ type wdt struct {
 	h     *hlog
 	lastS uint64 // last observed checkpoint (monotonicity oracle)
 	lastC uint64
+	held  []*model.PushPullPack // responses that were held back instead of delivered
 }
 
 type wworld struct {
@@ -467,7 +469,9 @@ func (w *wworld) sync(x *wdt, fault int) {
 	ns, ne := x.h.snapshot()
 	wasDue := r.dt.GetState() != model.StateOfDatatype_SUBSCRIBED
 	if fault != 2 {
+		base := runtime.NumGoroutine()
 		p, pm := guarded(func() { r.dt.ApplyPushPullPack(cloneP(resp)) })
+		waitGoroutines(base)
 		if p {
 			w.c.Violate("C16", "client-panic-on-response", fmt.Sprintf("ApplyPushPullPack panicked: %s", pm), w.desc)
 			panic("client panic")
@@ -482,6 +486,9 @@ func (w *wworld) sync(x *wdt, fault int) {
 			time.Sleep(100 * time.Microsecond)
 		}
 		time.Sleep(200 * time.Microsecond)
+	}
+	if fault == 2 && !isErr {
+		x.held = append(x.held, cloneP(resp))
 	}
 	s2, e2 := x.h.snapshot()
 	errG := "None"
@@ -521,6 +528,80 @@ func (w *wworld) sync(x *wdt, fault int) {
 	}
 	if len(resp.Operations) > 0 && pushed > 0 {
 		w.nontriv = true // pushed and pulled in one exchange: concurrent writers
+	}
+}
+
+// applyHeld delivers a response that was held back (a delayed answer), or a second answer, to the client
+func (w *wworld) applyResp(x *wdt, resp *model.PushPullPack, why string) {
+	r := x.rep
+	ns, ne := x.h.snapshot()
+	wasDue := r.dt.GetState() != model.StateOfDatatype_SUBSCRIBED
+	isErr := resp.GetPushPullPackOption().HasErrorBit()
+	base := runtime.NumGoroutine()
+	p, pm := guarded(func() { r.dt.ApplyPushPullPack(cloneP(resp)) })
+	waitGoroutines(base)
+	if p {
+		w.c.Violate("C07", "client-panic-on-late-response", fmt.Sprintf("ApplyPushPullPack panicked on a %s: %s", why, pm), w.desc)
+		panic("client panic")
+	}
+	deadline := time.Now().Add(time.Second)
+	for time.Now().Before(deadline) {
+		s2, e2 := x.h.snapshot()
+		if (!isErr || e2 > ne) && (isErr || !wasDue || s2 > ns) {
+			break
+		}
+		time.Sleep(100 * time.Microsecond)
+	}
+	time.Sleep(200 * time.Microsecond)
+	s2, e2 := x.h.snapshot()
+	errG := "None"
+	if e2 > ne {
+		x.h.mu.Lock()
+		errG = gSome(gN(uint64(x.h.errs[ne])))
+		x.h.mu.Unlock()
+	}
+	cpNow := r.dt.CreatePushPullPack().CheckPoint
+	np := uint64(len(r.dt.CreatePushPullPack().Operations))
+	curS, curC := cpNow.Sseq, cpNow.Cseq-np
+	if r.dt.GetState() == model.StateOfDatatype_SUBSCRIBED && !wasDue && (curS < x.lastS || curC < x.lastC) {
+		w.c.Violate("C05", "checkpoint-moved-back", fmt.Sprintf("checkpoint of key %q went from (s:%d c:%d) to (s:%d c:%d) on a %s", x.key, x.lastS, x.lastC, curS, curC, why), w.desc)
+	}
+	x.lastS, x.lastC = curS, curC
+	v, sz := r.view()
+	aobs := fmt.Sprintf("(mkAobs %s %s %s %s (mkCp %s %s) %s %s)", errG, gBool(s2 > ns), gBool(r.dt.GetState() == model.StateOfDatatype_SUBSCRIBED),
+		gStr(r.dt.GetDUID()), gN(curS), gN(curC), v, sz)
+	w.evs = append(w.evs, fmt.Sprintf("WApply %s %s %s", gNat(x.idx), gPpp(resp), aobs))
+	w.desc = append(w.desc, fmt.Sprintf("dt%d receives a %s (cp %s, %d ops)", x.idx, why, resp.CheckPoint.ToString(), len(resp.Operations)))
+	w.c.Count("ev-late-response")
+	w.faulty = true
+}
+
+// resendAndApply: the request that was just answered is delivered to the server a second time and the
+// client receives this second answer as well
+func (w *wworld) resendAndApply(x *wdt, pack *model.PushPullPack) {
+	msg := &model.PushPullMessage{Header: model.NewMessageHeader(model.RequestType_PUSHPULLS), Collection: x.owner.col, Cuid: x.owner.cuid, PushPullPacks: []*model.PushPullPack{cloneP(pack)}}
+	reqG := gPpp(pack)
+	pubsBefore := len(w.e.mq.Published())
+	ex := w.call(msg)
+	if ex.timeout || ex.err != nil {
+		w.c.Violate("C16", "no-answer", "a duplicated request was not answered", w.desc)
+		panic("dup request not answered")
+	}
+	resp := ex.resp.PushPullPacks[0]
+	time.Sleep(2 * time.Millisecond)
+	after := w.dbDigest()
+	w.checkLog(after)
+	pubG, _ := w.pubsSince(pubsBefore)
+	w.evs = append(w.evs, fmt.Sprintf("WRaw %s %s %s %s %s %s", gStr(x.owner.col), gStr(x.owner.cuid), reqG, gPpp(resp), after.gal, gList(pubG)))
+	w.desc = append(w.desc, fmt.Sprintf("the request of dt%d is delivered again -> opt %d cp %s", x.idx, resp.Option, resp.CheckPoint.ToString()))
+	w.applyResp(x, resp, "second answer to a duplicated request")
+}
+
+// waitGoroutines waits until the goroutine ApplyPushPullPack starts for the handlers has finished
+func waitGoroutines(base int) {
+	deadline := time.Now().Add(200 * time.Millisecond)
+	for runtime.NumGoroutine() > base && time.Now().Before(deadline) {
+		time.Sleep(20 * time.Microsecond)
 	}
 }
 
@@ -754,7 +835,7 @@ func sliceWire(c *Ctx, kind string) {
 	}
 	faults := c.Faults
 	c.Res.Rule = "random histories of 2..4 real clients (manual sync) in 1..2 collections on 1..2 keys of one " + kind + " against the real OrdaService over the in-memory store: create / subscribe / subscribe-or-create at arbitrary points, local calls, syncs, mutated raw requests (option bits, DUID, checkpoint, operations, type, key, collection, client)" +
-		map[bool]string{true: ", duplicated requests and dropped responses", false: ""}[faults] + "; every request/response/store state/publish is replayed on the model; non-trivial = some exchange both pushed and pulled operations; distinct by script"
+		map[bool]string{true: ", duplicated requests (second answer only, or both answers applied), dropped responses, responses held back and applied after later exchanges", false: ""}[faults] + "; every request/response/store state/publish is replayed on the model; non-trivial = some exchange both pushed and pulled operations; distinct by script"
 	var cases []string
 	ty := map[string]string{"counter": "ccall", "map": "mcall", "list": "lcall"}[kind]
 	for h := 0; h < n; h++ {
@@ -803,9 +884,24 @@ func sliceWire(c *Ctx, kind string) {
 					w.cur = "sync"
 					f := 0
 					if faults && c.Rng.Intn(3) == 0 {
-						f = 1 + c.Rng.Intn(2)
+						f = 1 + c.Rng.Intn(3)
 					}
-					w.sync(x, f)
+					if faults && len(x.held) > 0 && c.Rng.Intn(3) == 0 {
+						// a response held back earlier arrives now, after later exchanges
+						h := x.held[0]
+						x.held = x.held[1:]
+						w.applyResp(x, h, "delayed response")
+					} else if f == 3 {
+						saved := cloneP(x.rep.dt.CreatePushPullPack())
+						if x.rep.dt.GetState() == model.StateOfDatatype_SUBSCRIBED {
+							w.sync(x, 0)
+							w.resendAndApply(x, saved)
+						} else {
+							w.sync(x, 0)
+						}
+					} else {
+						w.sync(x, f)
+					}
 				default:
 					w.cur = "raw"
 					w.raw(x)
@@ -831,5 +927,5 @@ func sliceWire(c *Ctx, kind string) {
 	if faults {
 		name = "WireF_" + kind
 	}
-	c.WriteCases(name, "Base Time Ops Counter Map List Datatype Replicas CheckCrdt Server Wire CheckWire", "(list (wev "+ty+"))", "check_wire_"+kind, cases, 10)
+	c.WriteCases(name, "Base Time Ops Counter Map List Datatype Replicas CheckCrdt Server Wire Net CheckWire", "(list (wev "+ty+"))", "check_wire_"+kind, cases, 10)
 }
